@@ -24,7 +24,8 @@ LEVEL = "fault_enumeration"
 RULE = ("seeded traces from real runs (single runs and CLI run-space launches incl. a failing run/node); crash point "
         "enumerated after every emitted line (all prefixes); per prefix: emission order, 6-12 seeded permutations, "
         "k-way per-file interleavings, mid-way + double finalize; plus seeded subsets for order-independence. "
-        "distinct_nontrivial = distinct (trace digest, prefix length) pairs with >= 2 records checked under >= 3 orders.")
+        "distinct_nontrivial = distinct (trace digest, prefix length) pairs with >= 2 records checked under >= 3 orders."
+        " Further seeded dimensions: retry launches sharing a launch id, records delivered one by one / as a list batch / as lazy one-shot streams.")
 REAL_COMPONENTS = ["TraceAggregator (ingest, finalize_run, finalize_launch, finalize_all)", "producer: Pipeline/orchestrator/"
                    "JsonlTraceDriver/CLI run loop/RunSpaceTraceEmitter"]
 STUB_COMPONENTS = ["leaf processors", "RecordingExecutor", "SimClock/SimUUID", "delivery scheduler (harness)",
